@@ -4,7 +4,7 @@ import os, re, ast, json, glob
 import vlib
 
 # docs/configuring_whitespace_rules.rst, table "The number_of_spaces option can accept several values"
-DOC_FORMS = {"number_of_spaces": [0, 1, 2, ">0", ">=0", ">=1", ">1", "0+", "1+", "<2", "<=1", "<=2"]}
+DOC_FORMS = {"number_of_spaces": [0, 1, 2, ">0", ">=0", ">=1", ">1", ">=2", "0+", "1+", "2+", "<1", "<2", "<=0", "<=1", "<=2"]}
 
 
 # attributes every rule has; the tests set e.g. fixable = True on rules documented as unfixable to exercise code that
